@@ -1,31 +1,6 @@
-mod checks;
-mod asmcheck;
-mod choice;
-mod emu_common;
-mod families;
-mod emu_a64;
-mod emu_rv;
-mod emu_x86;
-mod fun_ast;
-mod fuzzrun;
-mod gen_axcut;
-mod gen_core;
-mod gen_fun;
-mod gen_lin;
-mod gen_syntax;
-mod heapcheck;
-mod mach_axcut;
-mod mach_core;
-mod mutate_ty;
-mod tc_axcut;
-mod tc_core;
-mod native;
-mod pipeline;
-mod ref_fun;
-mod runner;
-mod shrink_ast;
 
-use runner::{Ctx, Tier};
+use sccv::runner::{self, Ctx, Tier};
+use sccv::{checks, native, pipeline};
 use std::path::PathBuf;
 
 fn root_dir() -> PathBuf {
@@ -92,6 +67,14 @@ fn main() {
             ctx.verbose = true;
             let file = rest.first().cloned().unwrap_or_else(|| usage());
             let file = if PathBuf::from(&file).is_absolute() { PathBuf::from(file) } else { root.join(file) };
+            // generator configurations depend on the tier: decode the bytes as the finding run did
+            if let Ok(txt) = std::fs::read_to_string(&file) {
+                if txt.contains("\"tier\": \"thorough\"") || txt.contains("\"tier\":\"thorough\"") {
+                    ctx.tier = Tier::Thorough;
+                } else if txt.contains("\"tier\"") {
+                    ctx.tier = Tier::Quick;
+                }
+            }
             checks::run_replay(&ctx, &file)
         }
         "compile1" => checks::c18::child_main(&rest[0]),
